@@ -284,7 +284,7 @@ class C12(OptEngineBase):
                     sig_ops.append("recreate:" + op["how"])
                     continue
                 if op["op"] == "edit_edge":
-                    for G in ([A] if dry else [A, B]):
+                    for G in [A]:
                         if not G._edges:
                             continue
                         e = G._edges[op["k"] % len(G._edges)]
@@ -298,11 +298,12 @@ class C12(OptEngineBase):
                     if not dry:
                         res.probe("user_edit_between_calls")
                         force_clone = True
+                        B = graphs.clone(A)  # the stepper restarts from the visible state the user's edit produced
                     log.note("edit_edge", [op["k"], op["what"]])
                     sig_ops.append("edit_edge:" + op["what"])
                     continue
                 if op["op"] in ("move_vertex", "set_fixed"):
-                    for G in ([A] if dry else [A, B]):
+                    for G in [A]:
                         v = G._vertices[op["k"] % len(G._vertices)]
                         if op.get("among_fixed"):
                             fx_ = [u for u in G._vertices if u.fixed]
@@ -321,6 +322,10 @@ class C12(OptEngineBase):
                     if not dry:
                         res.probe("user_edit_between_calls")
                         force_clone = True  # whatever the earlier calls left behind must not matter after the edit
+                        # the stepper restarts from the visible state the edit produced (an in-place edit of a pose object that
+                        # is shared with another vertex or an edge moves both; replaying the op on a twin whose objects are
+                        # shared differently would not)
+                        B = graphs.clone(A)
                     log.note(op["op"], op["k"])
                     sig_ops.append(op["op"])
                     continue
